@@ -72,6 +72,12 @@ theorem passesChunked_dims (fill dflt : α) (dr dc : Nat) (f : Grid α → Grid 
   | zero => exact ⟨rfl, rfl⟩
   | succ n ih => simpa [passesChunked, mapOverlap] using ih
 
+theorem passesSpec_dims (fill : α) (k : (Int → Int → α) → α) (n : Nat) (g : Grid α) :
+    (passesSpec fill k n g).h = g.h ∧ (passesSpec fill k n g).w = g.w := by
+  induction n with
+  | zero => exact ⟨rfl, rfl⟩
+  | succ n ih => simpa [passesSpec, specGrid] using ih
+
 /-- **any number of passes, any chunking**: the chunked iteration equals the iterated specification -/
 theorem passes_eq_spec (fill dflt : α) (dr dc mr mc : Nat)
     (k : (Int → Int → α) → α) (f : Grid α → Grid α)
@@ -85,5 +91,17 @@ theorem passes_eq_spec (fill dflt : α) (dr dc mr mc : Nat)
     simp only [passesChunked, passesSpec]
     exact (mapOverlap_EqOn_spec fill dflt dr dc mr mc k f hk hf hmr hmc rch cch _
       (by rw [hd.1]; exact hrs) (by rw [hd.2]; exact hcs)).trans (specGrid_congr fill k ih)
+
+/-- a block function run `n` times on the same block -/
+def iterBlock (f : Grid α → Grid α) : Nat → Grid α → Grid α
+  | 0, g => g
+  | n + 1, g => f (iterBlock f n g)
+
+/-- the *other* shape a multi-pass overlap computation can take: ONE `map_overlap` whose block function
+    runs all `n` passes on its block (halo exchanged once).  With a halo of depth 1 this is not the
+    iterated specification for `n ≥ 2` (Props/C01.lean has a concrete witness). -/
+def passesFused (fill dflt : α) (dr dc : Nat) (f : Grid α → Grid α) (rch cch : List Nat) (n : Nat)
+    (g : Grid α) : Grid α :=
+  mapOverlap fill dflt dr dc (iterBlock f n) rch cch g
 
 end XrsVerif
